@@ -4,6 +4,8 @@ import (
 	"fmt"
 	"sync"
 	"sync/atomic"
+
+	"github.com/evolbioinfo/goalign/verifhook"
 )
 
 // * If SetTranslate(true):
@@ -206,9 +208,12 @@ func (p *phaser) Phase(orfs, seqs SeqBag) (phased chan PhasedSequence, err error
 		go func() {
 			var inerr error
 			defer wg.Done()
+			defer verifhook.At("ph.w.done", 0, 0)
+			verifhook.At("ph.w.start", 0, 0)
 			var ph PhasedSequence
 
 			for seq := range seqchan {
+				verifhook.At("ph.w.recv", seq.Length(), 0)
 				if p.translate {
 					ph, inerr = p.alignAgainstRefsAA(seq, orfsaa.Sequences())
 				} else {
@@ -217,17 +222,21 @@ func (p *phaser) Phase(orfs, seqs SeqBag) (phased chan PhasedSequence, err error
 
 				if ph.Err != nil {
 					atomic.StoreInt32(&failed, 1)
+					verifhook.At("ph.w.fail", seq.Length(), 0)
 					phased <- ph
 					return
 				} else if inerr != nil {
 					atomic.StoreInt32(&failed, 1)
 					ph.Err = inerr
+					verifhook.At("ph.w.fail", seq.Length(), 0)
 					phased <- ph
 					return
 				}
 				if atomic.LoadInt32(&failed) != 0 {
+					verifhook.At("ph.w.stop", seq.Length(), 0)
 					return
 				}
+				verifhook.At("ph.w.result", seq.Length(), 0)
 				phased <- ph
 			}
 		}()
@@ -235,7 +244,9 @@ func (p *phaser) Phase(orfs, seqs SeqBag) (phased chan PhasedSequence, err error
 
 	go func() {
 		wg.Wait()
+		verifhook.At("ph.c.wait", 0, 0)
 		close(phased)
+		verifhook.At("ph.c.close", 0, 0)
 		// In case an error occured
 		// we must finish to read the seqchan
 		for range seqchan {
